@@ -5,7 +5,7 @@
    boundaries, fragment = input at the range). *)
 From Coq Require Import List Bool Arith NArith Lia Sorted.
 Import ListNotations.
-From JS Require Import Model.Base Model.Shape Model.Sem Model.Infer Model.Lexer Model.Parser Model.Walk
+From JS Require Import Model.Base Model.Shape Model.Sem Model.Infer Model.Lexer Model.Unescape Model.Parser Model.Walk
   Proofs.TextFacts Proofs.TextLexer Proofs.TextParser.
 
 (* ---------- faithful ranges compose ---------- *)
@@ -333,7 +333,7 @@ Section Walk2.
     destruct (find_kid is_value_rule kn) as [v|] eqn:Ev; [|exact I].
     destruct (find_kid_in _ _ _ Ev) as [nv [Hinv _]]. pose proof (Hf _ Hinv) as [Hv _]. cbn [fst] in Hv.
     apply good_bind; [apply Hpr; exact Hv|]. intros s _.
-    destruct (map_get (utf8_encode body) content) as [old|]; [|exact I].
+    destruct (map_get (utf8_encode (name_chars body)) content) as [old|]; [|exact I].
     destruct old; try (destruct (shape_eqb s _); exact I). destruct (sset_mem s vs); exact I.
   Qed.
 
